@@ -155,6 +155,7 @@ type vfSM struct {
 	calls      int             // client calls so far
 	t0         time.Time       // creation time of the cache (first tick at t0+period)
 	lastTick   time.Time       // when a pending tick was last consumed or discarded
+	swept      map[uint64]bool // keys whose entry was removed by expiry processing and not written since
 	everTTL    map[uint64]bool // keys that were ever written with a TTL
 	tainted    map[uint64]bool // keys with a duplicate buffered insert (outside C06's premise)
 	deleted    map[uint64]bool // C05: Del(k) returned and writes drained since; no Set issued yet
@@ -194,7 +195,7 @@ func vfNewSM(cfg vfCfg) (*vfSM, func()) {
 	setBufSize, bucketDurationSecs = cfg.SetBufSize, cfg.BucketSecs
 	restore := func() { setBufSize, bucketDurationSecs = oldBuf, oldBucket }
 	s := &vfSM{cfg: cfg, resident: map[uint64]vfEnt{}, acct: map[uint64]int64{}, maxCost: cfg.MaxCost,
-		toks: map[uint64]*vfTokInfo{}, nextTok: 1, waiters: map[int]*vfWaiter{}, everTTL: map[uint64]bool{}, tainted: map[uint64]bool{}, deleted: map[uint64]bool{}}
+		toks: map[uint64]*vfTokInfo{}, nextTok: 1, waiters: map[int]*vfWaiter{}, everTTL: map[uint64]bool{}, swept: map[uint64]bool{}, tainted: map[uint64]bool{}, deleted: map[uint64]bool{}}
 	conf := &Config[uint64, uint64]{
 		NumCounters: cfg.NumCounters, MaxCost: cfg.MaxCost, BufferItems: cfg.BufferItems, Metrics: cfg.Metrics,
 		IgnoreInternalCost: cfg.IgnoreIntern, TtlTickerDurationInSec: cfg.TickerSecs,
